@@ -255,8 +255,7 @@ def persist_helpers(u: Unit):
     fi = u.fn(PS + "::clip_diff")
     cfg = Cfg("real")
     hd = {}
-    cfg.loops.update(elementwise_specs(fi.qualname, "output",
-                                       lambda ex, fr: clip_diff_spec(hd["d"](*G), hd["t"](*G), hd["e"](*G)), lambda ex, fr: hd["d"](*G)))
+    # no loop contract given: the two nested range loops are independent-iteration loops, summarised by engine.map_loop
     u.internal_replay, u.internal_witness = PERSIST_REPLAY, {}
 
     def setup(ex):
@@ -284,7 +283,6 @@ def persist_helpers(u: Unit):
                 return av
             cp = h2["cap"](*G)
             return z3.If(cp < av, cp, av)      # python min(a, b): b if b < a else a
-        cfg.loops.update(elementwise_specs(fj.qualname, "clipped", lambda ex, fr: clipped_spec(h2["t"](*G), h2["pd"](*G), maximum()), lambda ex, fr: h2["t"](*G)))
 
         def setup2(ex, with_cap=with_cap):
             base(ex)
